@@ -423,6 +423,10 @@ def check(ctx):
     # the convenience reader delivers every chunk it reads and reports each stream's end (C16.G1-G3)
     c16.drain_rules(ctx, prog)
     ctx.floor("C02.S3", 5)
+    # a poll/read loop takes poll's "no stream left" error as the end of all streams: poll may report it only when no requested
+    # stream of any source is still open, and waits with the caller's timeout otherwise (C09.V1-V5)
+    from . import c09
+    c09.poll_rules(ctx, prog)
     # what is read is handed on from storage private to the call: no buffer shared between handles / threads (C20.H1)
     from . import c20
     c20.globals_rule(ctx, prog)
